@@ -9,10 +9,16 @@
 (* record).  The writer object survives a call: `memBlocks`, `crashCtx`     *)
 (* and `principal` are fields of the writer, not of the call - whether they *)
 (* are reset at the start of a dump is the constant ResetOnDump.            *)
+(* The caller's size limit is a field of the writer too (`limit`): a dump   *)
+(* reads it to decide whether stacks beyond the first KeepFull threads are  *)
+(* shortened; `LimitConsumed` says whether a dump also writes it (a budget  *)
+(* that shrinks) - the caller's settings are not the dump's to change.      *)
 (* Properties: C01 (structure), C11 (soft failures), C19 (no carry-over).   *)
 (***************************************************************************)
 EXTENDS Naturals, Sequences, FiniteSets, TLC
 CONSTANTS MaxThreads, MaxDumps,
+          Limits,             \* the limits a caller may configure (0 = none), in cells
+          LimitConsumed,      \* TRUE: a dump lowers the writer's limit by what its stacks took; FALSE: it only reads it
           ResetOnDump,        \* TRUE: writer state reset at the start of dump(); FALSE: never reset
           PlaceByNamedIndex   \* thread-name slot function (see ThreadNames)
 NSlots == 8   \* thread list, modules, memory list, exception, system info, best-effort X (dso debug), thread names, handles
@@ -25,31 +31,40 @@ VARIABLES threads,    \* this dump's scenario: Seq of [named : BOOLEAN, hasStack
           dir,        \* Seq of [ty, off, len] (ty = 0 : unused)
           memBlocks,  \* writer-persistent: Seq of [off, len, dump]
           crashCtx,   \* writer-persistent: [off, len, dump] or NoCtx
+          limit,      \* writer-persistent: the size limit in force (0 = none)
+          callerLimit,\* what the caller configured (never touched by the model's writer: the yardstick)
           softErrs, dumpNo, pc
-vars == <<threads, appRegs, nmods, nhandles, ndsos, xFails, len, objs, dir, memBlocks, crashCtx, softErrs, dumpNo, pc>>
+vars == <<threads, appRegs, nmods, nhandles, ndsos, xFails, len, objs, dir, memBlocks, crashCtx, limit, callerLimit, softErrs, dumpNo, pc>>
+KeepFull == 1        \* the first KeepFull threads always keep their whole stack (20 in the code)
+FullStack == 2       \* cells of a whole stack; a shortened one has 1
+NStacks(ths) == Cardinality({i \in 1..Len(ths) : ths[i].hasStack})
+(* the decision of thread_list_stream::write: the estimate (every thread's whole stack) against the limit *)
+Shortens(ths, lim) == lim # 0 /\ FullStack * NStacks(ths) > lim
+StackLen(ths, i, lim) == IF i > KeepFull /\ Shortens(ths, lim) THEN 1 ELSE FullStack
 NoCtx == [off |-> 0, len |-> 0, dump |-> 0]
 Scenario == /\ threads' \in UNION {[1..n -> [named : BOOLEAN, hasStack : BOOLEAN]] : n \in 1..MaxThreads}
             /\ appRegs' \in 0..1 /\ xFails' \in BOOLEAN /\ nmods' \in 0..1 /\ nhandles' \in 0..1 /\ ndsos' \in 0..1
 Init == /\ threads = <<>> /\ appRegs = 0 /\ nmods = 0 /\ nhandles = 0 /\ ndsos = 0 /\ xFails = FALSE /\ len = 0 /\ objs = {} /\ dir = <<>>
         /\ memBlocks = <<>> /\ crashCtx = NoCtx /\ softErrs = {} /\ dumpNo = 0 /\ pc = "idle"
+        /\ limit \in Limits /\ callerLimit = limit
 Begin == /\ pc = "idle" /\ dumpNo < MaxDumps /\ Scenario
          /\ dumpNo' = dumpNo + 1 /\ len' = 1 + NSlots           \* header + directory
          /\ objs' = {[k |-> "hdr", off |-> 0, len |-> 1, own |-> 0], [k |-> "dir", off |-> 1, len |-> NSlots, own |-> 0]}
          /\ dir' = <<>> /\ softErrs' = {}
          /\ IF ResetOnDump THEN memBlocks' = <<>> /\ crashCtx' = NoCtx ELSE UNCHANGED <<memBlocks, crashCtx>>
-         /\ pc' = "threads"
+         /\ pc' = "threads" /\ UNCHANGED <<limit, callerLimit>>
 (* sequential allocation: a list of [k, len, own] appended at `base` *)
 RECURSIVE Place(_, _)
 Place(items, base) == IF items = <<>> THEN {} ELSE
       {[k |-> Head(items).k, off |-> base, len |-> Head(items).len, own |-> Head(items).own]} \cup Place(Tail(items), base + Head(items).len)
 RECURSIVE Sum(_)
 Sum(items) == IF items = <<>> THEN 0 ELSE Head(items).len + Sum(Tail(items))
-Keep == <<threads, appRegs, nmods, nhandles, ndsos, xFails, dumpNo>>
+Keep == <<threads, appRegs, nmods, nhandles, ndsos, xFails, dumpNo, callerLimit>>
 ThreadList ==    \* thread_list_stream::write: header+array, then per thread (stack), context
   /\ pc = "threads"
   /\ LET n == Len(threads)
          arr == <<[k |-> "s:threads", len |-> 1 + n, own |-> 0]>>
-         per == [i \in 1..n |-> IF threads[i].hasStack THEN <<[k |-> "stack", len |-> 1, own |-> i], [k |-> "ctx", len |-> 1, own |-> i]>>
+         per == [i \in 1..n |-> IF threads[i].hasStack THEN <<[k |-> "stack", len |-> StackLen(threads, i, limit), own |-> i], [k |-> "ctx", len |-> 1, own |-> i]>>
                                                        ELSE <<[k |-> "ctx", len |-> 1, own |-> i]>>]
          flat == LET RECURSIVE F(_) F(j) == IF j > n THEN <<>> ELSE per[j] \o F(j+1) IN F(1)
          placed == Place(arr \o flat, len)
@@ -58,7 +73,8 @@ ThreadList ==    \* thread_list_stream::write: header+array, then per thread (st
      IN /\ objs' = objs \cup placed
         /\ len' = len + Sum(arr \o flat)
         /\ dir' = Append(dir, [ty |-> 3, off |-> len, len |-> 1 + n])
-        /\ memBlocks' = memBlocks \o [j \in 1..Cardinality(stacks) |-> [off |-> ord[j].off, len |-> 1, dump |-> dumpNo]]
+        /\ memBlocks' = memBlocks \o [j \in 1..Cardinality(stacks) |-> [off |-> ord[j].off, len |-> ord[j].len, dump |-> dumpNo]]
+        /\ limit' = IF LimitConsumed /\ limit # 0 THEN (IF limit > Sum(flat) THEN limit - Sum(flat) ELSE 1) ELSE limit
         /\ crashCtx' = LET c == CHOOSE o \in placed : o.k = "ctx" /\ o.own = 1 IN [off |-> c.off, len |-> 1, dump |-> dumpNo]   \* blamed = thread 1
   /\ pc' = "modules" /\ UNCHANGED <<Keep, softErrs>>
 Modules ==       \* mappings::write: per module cv record, name string; then header+array
@@ -68,31 +84,31 @@ Modules ==       \* mappings::write: per module cv record, name string; then hea
          base == len + Sum(per)
      IN /\ objs' = objs \cup Place(per \o arr, len)
         /\ dir' = Append(dir, [ty |-> 4, off |-> base, len |-> 1 + nmods]) /\ len' = len + Sum(per \o arr)
-  /\ pc' = "app" /\ UNCHANGED <<Keep, memBlocks, crashCtx, softErrs>>
+  /\ pc' = "app" /\ UNCHANGED <<Keep, memBlocks, crashCtx, softErrs, limit>>
 AppMem ==        \* app_memory::write: blobs only, no directory entry
   /\ pc = "app"
   /\ IF appRegs = 1
        THEN /\ objs' = objs \cup {[k |-> "app", off |-> len, len |-> 1, own |-> 0]} /\ len' = len + 1
             /\ memBlocks' = Append(memBlocks, [off |-> len, len |-> 1, dump |-> dumpNo])
        ELSE UNCHANGED <<objs, len, memBlocks>>
-  /\ pc' = "memlist" /\ UNCHANGED <<Keep, dir, crashCtx, softErrs>>
+  /\ pc' = "memlist" /\ UNCHANGED <<Keep, dir, crashCtx, softErrs, limit>>
 MemList ==       \* memory_list_stream::write: header + every descriptor in memory_blocks
   /\ pc = "memlist"
   /\ objs' = objs \cup {[k |-> "s:memlist", off |-> len, len |-> 1 + Len(memBlocks), own |-> 0]}
                   \cup {[k |-> "memdesc", off |-> memBlocks[j].off, len |-> memBlocks[j].len, own |-> j] : j \in 1..Len(memBlocks)}
   /\ dir' = Append(dir, [ty |-> 5, off |-> len, len |-> 1 + Len(memBlocks)])
   /\ len' = len + 1 + Len(memBlocks)
-  /\ pc' = "exception" /\ UNCHANGED <<Keep, memBlocks, crashCtx, softErrs>>
+  /\ pc' = "exception" /\ UNCHANGED <<Keep, memBlocks, crashCtx, softErrs, limit>>
 Exception ==     \* exception_stream::write: record pointing at the crashing-thread context
   /\ pc = "exception"
   /\ objs' = objs \cup {[k |-> "s:exception", off |-> len, len |-> 1, own |-> 0], [k |-> "excctx", off |-> crashCtx.off, len |-> crashCtx.len, own |-> 0]}
   /\ dir' = Append(dir, [ty |-> 6, off |-> len, len |-> 1]) /\ len' = len + 1
-  /\ pc' = "sysinfo" /\ UNCHANGED <<Keep, memBlocks, crashCtx, softErrs>>
+  /\ pc' = "sysinfo" /\ UNCHANGED <<Keep, memBlocks, crashCtx, softErrs, limit>>
 SysInfo ==       \* systeminfo_stream::write: record allocated first, then the OS version string
   /\ pc = "sysinfo"
   /\ objs' = objs \cup Place(<<[k |-> "s:sysinfo", len |-> 1, own |-> 0], [k |-> "csd", len |-> 1, own |-> 0]>>, len)
   /\ dir' = Append(dir, [ty |-> 7, off |-> len, len |-> 1]) /\ len' = len + 2
-  /\ pc' = "x" /\ UNCHANGED <<Keep, memBlocks, crashCtx, softErrs>>
+  /\ pc' = "x" /\ UNCHANGED <<Keep, memBlocks, crashCtx, softErrs, limit>>
 BestEffortX ==   \* dso debug stream as the representative best-effort stream: link-map array, names, record + dynamic copy
   /\ pc = "x"
   /\ IF xFails THEN /\ dir' = Append(dir, [ty |-> 0, off |-> 0, len |-> 0]) /\ softErrs' = softErrs \cup {"X"} /\ UNCHANGED <<objs, len>>
@@ -100,7 +116,7 @@ BestEffortX ==   \* dso debug stream as the representative best-effort stream: l
                         base == len + Sum(per)
                     IN /\ objs' = objs \cup Place(per \o <<[k |-> "s:x", len |-> 2, own |-> 0]>>, len) /\ len' = len + Sum(per) + 2
                        /\ dir' = Append(dir, [ty |-> 9, off |-> base, len |-> 2]) /\ UNCHANGED softErrs
-  /\ pc' = "names" /\ UNCHANGED <<Keep, memBlocks, crashCtx>>
+  /\ pc' = "names" /\ UNCHANGED <<Keep, memBlocks, crashCtx, limit>>
 Names ==         \* thread_names_stream::write (see ThreadNames)
   /\ pc = "names"
   /\ LET n == Len(threads)
@@ -114,18 +130,18 @@ Names ==         \* thread_names_stream::write (see ThreadNames)
      IN /\ objs' = objs \cup {[k |-> "s:names", off |-> arrOff, len |-> 1 + c, own |-> 0]} \cup entries \cup strings
         /\ dir' = Append(dir, [ty |-> 24, off |-> arrOff, len |-> 1 + c])
         /\ len' = len + 1 + 2 * c
-  /\ pc' = "handles" /\ UNCHANGED <<Keep, memBlocks, crashCtx, softErrs>>
+  /\ pc' = "handles" /\ UNCHANGED <<Keep, memBlocks, crashCtx, softErrs, limit>>
 Handles ==       \* handle_data_stream::write: name strings first (while collecting), then header + descriptors
   /\ pc = "handles"
   /\ LET per == IF nhandles = 1 THEN <<[k |-> "handlename", len |-> 1, own |-> 1]>> ELSE <<>>
          base == len + Sum(per)
      IN /\ objs' = objs \cup Place(per \o <<[k |-> "s:handles", len |-> 1 + nhandles, own |-> 0]>>, len)
         /\ dir' = Append(dir, [ty |-> 12, off |-> base, len |-> 1 + nhandles]) /\ len' = len + Sum(per) + 1 + nhandles
-  /\ pc' = "ret" /\ UNCHANGED <<Keep, memBlocks, crashCtx, softErrs>>
-Return == pc = "ret" /\ pc' = "idle" /\ UNCHANGED <<Keep, len, objs, dir, memBlocks, crashCtx, softErrs>>
+  /\ pc' = "ret" /\ UNCHANGED <<Keep, memBlocks, crashCtx, softErrs, limit>>
+Return == pc = "ret" /\ pc' = "idle" /\ UNCHANGED <<Keep, len, objs, dir, memBlocks, crashCtx, softErrs, limit>>
 (* a hard error at any stage (an unreadable application region, the destination failing): dump() returns Err, whatever the
    writer has accumulated so far stays in it, and the writer can be asked again *)
-Abort == pc \notin {"idle", "ret"} /\ pc' = "idle" /\ UNCHANGED <<Keep, len, objs, dir, memBlocks, crashCtx, softErrs>>
+Abort == pc \notin {"idle", "ret"} /\ pc' = "idle" /\ UNCHANGED <<Keep, len, objs, dir, memBlocks, crashCtx, softErrs, limit>>
 Next == Begin \/ ThreadList \/ Modules \/ AppMem \/ MemList \/ Exception \/ SysInfo \/ BestEffortX \/ Names \/ Handles \/ Return \/ Abort
 Spec == Init /\ [][Next]_vars
 
@@ -152,4 +168,7 @@ C19 == AtReturn =>
    /\ \A j \in 1..Len(memBlocks) : memBlocks[j].dump = dumpNo
    /\ Len(memBlocks) = Cardinality({i \in 1..Len(threads) : threads[i].hasStack}) + appRegs
    /\ crashCtx.dump = dumpNo
+   \* the caller's settings are as the caller left them, and this image's stacks are those a fresh writer with these settings takes
+   /\ limit = callerLimit
+   /\ \A o \in {x \in objs : x.k = "stack"} : o.len = StackLen(threads, o.own, callerLimit)
 =============================================================================
